@@ -856,6 +856,8 @@ impl Melda {
         };
         // Write the data on the backend
         data.write_raw_item(&deltaid.key(), deltajson.as_bytes())?;
+        // Pack and delta are durable: drop the staged objects
+        data.unstage()?;
         drop(data);
         // Assign the Delta identifier
         delta.id = Some(deltaid.clone());
